@@ -4,10 +4,12 @@
    from blots-core/src/values.rs; library calls log10, powi, {:.N}, {:.14e}, parse::<f64> are
    universally quantified oracles).  Grammar and denotation: coq/proofs/DisplayNumSpec.v.
    See notes/C20.md for what is proved, partial and refuted. *)
-From Coq Require Import ZArith Bool String Ascii List QArith Qabs Qpower Floats.SpecFloat.
+From Coq Require Import ZArith Reals Bool String Ascii List QArith Qabs Qpower Floats.SpecFloat.
+From Flocq Require Import Core.Core.
 Require Import Blots.Num Blots.Outcome Blots.DisplayNum.
 Require Import Blots.proofs.DisplayNumGroup Blots.proofs.DisplayNumSpec Blots.proofs.DisplayNumText
-               Blots.proofs.DisplayNumInt Blots.proofs.DisplayNum Blots.proofs.DisplayNumAcc.
+               Blots.proofs.DisplayNumInt Blots.proofs.DisplayNum Blots.proofs.DisplayNumAcc
+               Blots.proofs.DisplayNumFloat Blots.proofs.DisplayNumFinite.
 Import ListNotations.
 Open Scope char_scope.
 Open Scope Z_scope.
@@ -91,6 +93,43 @@ Check C20_wellformed : forall log10 powi fmt_prec fmt_exp14 parse_f64 fx,
   (std_nonint_path x = true /\
    exists r, round_to_significant_figures log10 powi fx x = Ok r /\ is_finite r = false).
 Print Assumptions C20_wellformed.
+
+(* ---- WELL-FORMEDNESS WITH NO SIDE CONDITION: if moreover the two numeric oracles are coarsely
+        sane on the standard path (floor(log10 a) of a double in [0.0001, 1e15) lies in [-5, 15];
+        powi(10, j) for -2 <= j <= 21 is a finite non-zero double of magnitude 2^-80 .. 2^80), the
+        rounding step (value * scale).round() / scale yields a finite double (Flocq: no overflow),
+        so the display text of EVERY valid double matches the numeral grammar.
+        RV x is the real number a double denotes (Flocq SF2R). ---- *)
+Theorem C20_wellformed_total : forall log10 powi fmt_prec fmt_exp14 parse_f64 fx,
+  (forall x n, is_finite x = true -> 0 <= n -> prec_shape n (fmt_prec x n) = true) ->
+  (forall x, is_finite x = true -> exp_shape (fmt_exp14 x) = true) ->
+  (forall s m, mant_shape s = true -> parse_f64 s = Some m -> is_finite m = true) ->
+  (forall a, valid a -> is_finite a = true -> scientific_range a = false ->
+             -5 <= as_i32 (nfloor (log10 a)) <= 15) ->
+  (forall j, -2 <= j <= 21 ->
+     exists s m e, powi c_ten j = S754_finite s m e /\ valid (powi c_ten j) /\
+       (bpow radix2 (-80) <= Rabs (RV (powi c_ten j)) <= bpow radix2 80)%R) ->
+  forall x t,
+  valid_binary 53 1024 x = true ->
+  format_display_number log10 powi fmt_prec fmt_exp14 parse_f64 fx x = Ok t ->
+  wf_numeral t = true.
+Proof. exact display_wellformed_total. Qed.
+Check C20_wellformed_total : forall log10 powi fmt_prec fmt_exp14 parse_f64 fx,
+  (forall x n, is_finite x = true -> 0 <= n -> prec_shape n (fmt_prec x n) = true) ->
+  (forall x, is_finite x = true -> exp_shape (fmt_exp14 x) = true) ->
+  (forall s m, mant_shape s = true -> parse_f64 s = Some m -> is_finite m = true) ->
+  (forall a, valid a -> is_finite a = true -> scientific_range a = false ->
+             -5 <= as_i32 (nfloor (log10 a)) <= 15) ->
+  (forall j, -2 <= j <= 21 ->
+     exists s m e, powi c_ten j = S754_finite s m e /\ valid (powi c_ten j) /\
+       (bpow radix2 (-80) <= Rabs (RV (powi c_ten j)) <= bpow radix2 80)%R) ->
+  forall x t,
+  valid_binary 53 1024 x = true ->
+  format_display_number log10 powi fmt_prec fmt_exp14 parse_f64 fx x = Ok t ->
+  wf_numeral t = true.
+Print Assumptions C20_wellformed_total.
+(* terminates the axiom block for the driver's Print-Assumptions parser (checks/common.py) *)
+Print Assumptions C20_names.
 
 (* ---- the model never yields an error value: Ok or (overflow) Panic ---- *)
 Theorem C20_ok_or_panic : forall log10 powi fmt_prec fmt_exp14 parse_f64 fx x,
@@ -225,8 +264,8 @@ Definition log10_sane (log10 : num -> num) : Prop :=
 Definition accurate15 (x : num) (t : text) : Prop :=
   forall k, in_decade x k -> (Qabs (denote t - num_to_Q x) < Qpower (10 # 1) (k - 14)%Z)%Q.
 
-(* The statement of the accuracy clause for the code as repaired by
-   fixes/C20-decimal-exponent.diff, with the exact library models.  NOT PROVED (it needs the
+(* The statement of the accuracy clause for the code as it is (repaired by
+   fixes/C20-decimal-exponent.diff = /repo 60da55e), with the exact library models.  NOT PROVED (it needs the
    rounding-error analysis of value*scale, round, /scale over all binades); decided on the
    implementation by the exact-rational search of checks/c20.py. *)
 Definition C20_accuracy_full : Prop :=
@@ -298,17 +337,18 @@ Print Assumptions C20_accuracy_partial_scientific.
    {:.14e} gives 1.50000000000000e-7 (error 0 at this point is not required; bound checked) *)
 Example C20_hyp_sci_sample :
   let x := num_of_bits 0x3e8421f5f40d8376 in
+  let m := match parse_f64_exec (tx "1.50000000000000") with Some m => m | None => S754_nan end in
   split_once "e" (fmt_exp14_exec x) = Some (tx "1.50000000000000", tx "-7") /\
   mant14_shape (tx "1.50000000000000") = true /\ parse_i32 (tx "-7") = Some (-7) /\
   Qle_bool (Qabs (denote_plain (tx "1.50000000000000") * Qpower (10 # 1) (-7) - num_to_Q x))
            ((1 # 2) * Qpower (10 # 1) (-7 - 14)) = true /\
-  (exists m, parse_f64_exec (tx "1.50000000000000") = Some m /\ is_finite m = true /\
-     Qle_bool (Qabs (num_to_Q m - denote_plain (tx "1.50000000000000"))) (2 # 1000000000000000) = true /\
-     prec_shape 14 (fmt_prec_exec m 14) = true /\
-     Qle_bool (Qabs (denote_plain (fmt_prec_exec m 14) - num_to_Q m)) (1 # 200000000000000) = true).
-Proof. vm_compute. repeat split. eexists. repeat split. Qed.
+  is_finite m = true /\
+  Qle_bool (Qabs (num_to_Q m - denote_plain (tx "1.50000000000000"))) (2 # 1000000000000000) = true /\
+  prec_shape 14 (fmt_prec_exec m 14) = true /\
+  Qle_bool (Qabs (denote_plain (fmt_prec_exec m 14) - num_to_Q m)) (1 # 200000000000000) = true.
+Proof. vm_compute. repeat split. Qed.
 
-(* REFUTED on the code as it is (fx = false), known finding C20-F1:
+(* REFUTED on the code before /repo commit 60da55e (fx = false), finding C20-F1 (now fixed):
    x = 999999999999998.875 (bits 430c6bf52633fff7).  f64::log10 returns 15.0 both on x and on
    the rounded value 1e15 (these two table entries are re-validated against the real function
    by the check on every run; 15.0 is also the correctly rounded value of log10 x, so no
@@ -317,14 +357,15 @@ Proof. vm_compute. repeat split. eexists. repeat split. Qed.
 Definition C20_F1_witness : num := num_of_bits 0x430c6bf52633fff7.
 Definition C20_F1_log10_table : list (Z * Z) :=
   [(0x430c6bf52633fff7, 0x402e000000000000); (0x430c6bf526340000, 0x402e000000000000)].
-Lemma C20_accuracy_refuted :
+Lemma C20_F1_before_repair :
   display_exec false C20_F1_log10_table C20_F1_witness = Ok (tx "1,000,000,000,000,000") /\
   Qle_bool (Qpower (10 # 1) 14) (Qabs (num_to_Q C20_F1_witness)) = true /\
   Qle_bool (Qpower (10 # 1) 15) (Qabs (num_to_Q C20_F1_witness)) = false /\
   Qle_bool (Qpower (10 # 1) (14 - 14))
            (Qabs (denote (tx "1,000,000,000,000,000") - num_to_Q C20_F1_witness)) = true.
 Proof. vm_compute. repeat split. Qed.
-(* with the repair the same input, same log10 values, displays within 0.125 *)
+(* with the repair (fx = true, the code as it is now) the same input, same log10 values,
+   displays within 0.125 *)
 Lemma C20_F1_repaired :
   display_exec true C20_F1_log10_table C20_F1_witness = Ok (tx "999,999,999,999,999") /\
   Qle_bool (Qpower (10 # 1) (14 - 14))
